@@ -86,15 +86,13 @@ def run(prog: Program, res: Result) -> None:
             continue      # ordering before pairing is C16's concern; the count is one result per incumbent either way
         bad("R1-" + rule.split("-", 1)[1], node, msg)
     # get_pool_results (shared obligation with C11)
-    from .c11 import run as _c11  # noqa: F401  (C11 decides the gather loop; referenced in the evidence)
+    from .c11 import check_get_pool_results
     gp = prog.func(f"{PKG}.helpers.get_pool_results")
-    apps = [n for n in own_nodes(gp) if isinstance(n, ast.Call) and isinstance(n.func, ast.Attribute) and n.func.attr == "append"]
-    jumps = [n for n in own_nodes(gp) if isinstance(n, (ast.Break, ast.Continue, ast.If, ast.Try))]
-    okg = len(apps) == 1 and not jumps
-    res.ob(okg, f"{gp.loc()} get_pool_results: one unconditional append per future", "get_pool_results")
+    okg, whyg = check_get_pool_results(prog)
+    res.ob(okg, f"{gp.loc()} get_pool_results: one result per future, unfiltered", "get_pool_results")
     if not okg:
         res.add(Finding(P, "C10.R1-pool-hand-off", "helpers.get_pool_results::loop", gp.loc(),
-                        "get_pool_results does not append every future's result exactly once: pooled generations lose or duplicate agents"))
+                        f"get_pool_results: {whyg}: pooled generations lose or duplicate agents"))
     # sort_and_trim keeps FIRST(k)
     from ..ord import L, OrdDeviation, OrdUnknown, evaluate
     from ..sgn import MIN
